@@ -9,7 +9,9 @@ PROP = {
             "(relative paths, types, bytes, mtimes) before, after every message and after the deletion are turned into an effect "
             "list and compared with the model's effect log, per-message accept/reject and chosen name, createdFiles, deleted list "
             "and both trees; filepath.Join itself is compared with the model's join; non-trivial = a message was refused, renamed, "
-            "something was deleted or a full series was present; distinct = distinct input line. Group recvfiles: a scripted "
+            "something was deleted or a full series was present; distinct = distinct input line. Chain strata: one name (with fmt "
+            "verbs) arrives 52-65 times or meets an existing chain name.0..name.100; oracle fresh-shape (local name = name or "
+            "name.N, N the first free decimal counter). Group recvfiles: a scripted "
             "protocol-1 sender stream (NUM, per entry NAME [SIZE DATA.. MD5]) through the REAL recvFiles in the same deep sandboxes: "
             "plain files with repeated names; directory mode with several roots, colliding/renamed roots (x.0, x.1), empty "
             "directories, directory-only trees, records below an unannounced root, repeated and interleaved roots, archive records "
